@@ -154,6 +154,36 @@ fn cmp_values(l: Layout, tier: Tier) -> Vec<u128> {
     }
 }
 
+/// comparison operand pairs: the product of the two alphabets, followed by *related* pairs the product cannot
+/// contain: every value of one side with the other side's representation of (the floor of) the same number and its
+/// two neighbours -- the pairs that are equal or one unit apart across the two layouts, for irregular mid-range
+/// patterns as well
+fn cmp_pairs(s: Layout, d: Layout, tier: Tier) -> Vec<(u128, u128)> {
+    let av = cmp_values(s, tier);
+    let bv = cmp_values(d, tier);
+    let mut v: Vec<(u128, u128)> = av.iter().flat_map(|&a| bv.iter().map(move |&b| (a, b))).collect();
+    if s.w > 8 || d.w > 8 {
+        let one = vcore::Z::from_u128(1);
+        for &a in &av {
+            let (r, _) = exact_conv(s, d, a);
+            for z in [r.sub(one), r, r.add(one)] {
+                if d.fits(&z) {
+                    v.push((a, d.wrap(&z)));
+                }
+            }
+        }
+        for &b in &bv {
+            let (r, _) = exact_conv(d, s, b);
+            for z in [r.sub(one), r, r.add(one)] {
+                if s.fits(&z) {
+                    v.push((s.wrap(&z), b));
+                }
+            }
+        }
+    }
+    v
+}
+
 /// exact conversion result in destination raw units and whether it is exact
 fn exact_conv(s: Layout, d: Layout, a: u128) -> (vcore::Z, bool) {
     let za = s.z(a);
@@ -284,10 +314,8 @@ fn run_pair(p: &Pair, prop: Prop, tier: Tier) -> JobOut {
         }
     }
     if prop != Prop::C04 {
-        let av = cmp_values(s, tier);
-        let bv = cmp_values(d, tier);
-        for &a in &av {
-            for &b in &bv {
+        for (a, b) in cmp_pairs(s, d, tier) {
+            {
                 rep.states += 1;
                 if a != 0 || b != 0 {
                     rep.nontrivial_states += 1;
@@ -503,11 +531,9 @@ fn cmd_dump(tab: &[Pair], args: &Args) {
     use std::io::Write;
     let mut o = std::io::BufWriter::new(std::io::stdout().lock());
     if op == OP_CMP {
-        for &a in &cmp_values(s, tier) {
-            for &b in &cmp_values(d, tier) {
-                let got = subject(|| (p.f)(op, a, b)).unwrap_or(Out::Panic);
-                writeln!(o, "{}\t{}", case(p, op, a, b), got).unwrap();
-            }
+        for (a, b) in cmp_pairs(s, d, tier) {
+            let got = subject(|| (p.f)(op, a, b)).unwrap_or(Out::Panic);
+            writeln!(o, "{}\t{}", case(p, op, a, b), got).unwrap();
         }
     } else {
         for &a in &src_values(s, tier) {
